@@ -8,6 +8,8 @@ from .values import And, Implies, SBool, to_bool, to_int
 
 
 def lemma_obligations(reg, lem):
+    from .values import Mode
+    Mode.int_mode = lem.int_mode
     ns = NS(lem.make_ns())
     hyps = [b for _, b in labelled(lem.requires(ns) if lem.requires else None, 'requires')]
 
@@ -35,8 +37,12 @@ def lemma_obligations(reg, lem):
         ob = Obligation('lemma::' + lem.name, 'lemma', label, 0, zh, to_bool(goal).z())
         ob.name = f"lemma {lem.name}#{label}"
         ob.props = lem.props
+        ob.fuel = lem.fuel
+        ob.tactic = lem.tactic
         obs.append(ob)
     # vacuity guard: requires + hints satisfiable
+    if not lem.sat_check:
+        return obs
     g = Obligation('lemma::' + lem.name, 'req-sat', 'requires-satisfiable', 0, zh, z3.BoolVal(True), expect='sat')
     g.name = f"lemma {lem.name}#requires-satisfiable"
     g.props = lem.props
